@@ -3,6 +3,7 @@ package main
 import (
 	"fmt"
 	"path/filepath"
+	"strings"
 
 	"golang.org/x/tools/go/ssa"
 )
@@ -89,12 +90,18 @@ var controlsByEngine = map[string]control{
 		}
 		return neg("BadMake") && !ms("(eng).BadMustStore"), !neg("GoodMake") && ms("(eng).GoodMustStore"), "BadMake/GoodMake, BadMustStore/GoodMustStore"
 	}},
+	"LIMB": {"limb polynomial identity (misplaced carry) / comparison of a wrapped product", func(fx *Ctx) (bool, bool, string) {
+		bad := checkLimbSpec(fx, limbSpec{fn: "BadMul64", kind: limbProduct})
+		good := checkLimbSpec(fx, limbSpec{fn: "GoodMul64", kind: limbProduct})
+		cmp := checkLimbSpec(fx, limbSpec{fn: "BadProdEq", kind: limbProdEqual})
+		return bad.bad != "" && good.splits == 5 && strings.Contains(cmp.bad, "wrapped"), good.bad == "", "BadMul64/BadProdEq/GoodMul64"
+	}},
 }
 
 // engines a property's rules rely on (for which a control exists)
 var propEngines = map[string][]string{
 	"C01": {"RING", "DEAD"}, "C03": {"RING", "GUARD"}, "C06": {"DEAD"}, "C10": {"DEAD"}, "C12": {"OWN", "GUARD"},
-	"C13": {"WIDTH"}, "C14": {"WIDTH"}, "C15": {"WIDTH"}, "C16": {"WIDTH"}, "C17": {"OWN"}, "C18": {"OWN"}, "C08": {}, "C02": {},
+	"C13": {"WIDTH", "LIMB"}, "C14": {"WIDTH", "LIMB"}, "C15": {"WIDTH", "LIMB"}, "C16": {"WIDTH"}, "C17": {"OWN"}, "C18": {"OWN"}, "C08": {}, "C02": {},
 }
 
 func runControls(p *propDef, verif string, c *Ctx) {
